@@ -33,7 +33,7 @@ def run(ctx):
     r = ctx.rng
     tmp = tempfile.mkdtemp(prefix='beebverif-c13-')
     try:
-        n = 60 if ctx.tier == 'quick' else 800
+        n = 132 if ctx.tier == 'quick' else 800
         items = []
         for k in range(n):
             kinds = ['plain', 'aa-file-at-2', 'watford-hi-start', 'watford-large', 'forge-18', 'side2-catalogue', 'opus', 'aa-empty-file-at-2', 'forge-opus-table', 'dfs-large', 'plain']
